@@ -16,7 +16,7 @@ RULE = ('cases: nesting construct in {parentheses, brackets, CASE, function call
         '(thorough adds 500,3000) x entry point in {parse, parsestream, split, format + drawn valid option set}; drawn by Hypothesis, executed in a plain-Python child '
         'process whose recursion limit is set after the imports; outcome must be ok (result passes round-trip and tree invariants computed by an iterative walk, '
         'str() at the caller\'s stack depth) or SQLParseError; after every case an ordinary split/parse call must still work; a child that dies is a violation. '
-        'non-trivial: depth >= 0.5 x limit (the guard is reached), or depth >= 300 at the default limit 1000; distinct by (construct, depth, limit, entry, options)')
+        'leg moderate: the grid shape x depth in {25,51,60,120,200} x entry point x 9 fixed option sets at the default limit 1000, enumerated completely (the zone where calls normally succeed: any exception other than SQLParseError shows). non-trivial: depth >= 0.5 x limit (the guard is reached), or depth >= 51 at the default limit 1000; distinct by (construct, depth, limit, entry, options)')
 ASSUMPTIONS = ['the child process imports sqlparse before lowering the recursion limit (an application does the same)',
                'limits below 100 leave too little stack for an ordinary call and are not used']
 
@@ -95,7 +95,7 @@ def check(case):
         res.fail('result-invariant', out['inv'], '%s at depth %d (limit %d, %s): result violates %s' % (case['shape'], case['depth'], limit, case['entry'], out['inv']))
     if out.get('after') not in ('ok', None):
         res.fail('later-call', str(out['after']), 'an ordinary call after %s depth %d (limit %d, %s) gives %s' % (case['shape'], case['depth'], limit, case['entry'], out['after']))
-    res.nontrivial = case['depth'] >= 0.5 * limit or (limit >= 1000 and case['depth'] >= 300)
+    res.nontrivial = case['depth'] >= 0.5 * limit or (limit >= 1000 and case['depth'] >= 51)
     res.labels = ['outcome:' + str(oc), 'limit:%d' % limit, 'entry:' + case['entry'], 'shape:' + case['shape'] + ':' + str(oc)]
     res.sample = {'shape': case['shape'], 'depth': case['depth'], 'limit': limit, 'entry': case['entry'], 'options': case.get('opts'), 'outcome': oc}
     return res
@@ -123,4 +123,22 @@ def run(tier, seed, shard, nshards, n, collector, leg):
         _children.clear()
 
 
-LEGS = [Leg('nesting', check=check, run=run, kind='custom', examples={'quick': 600, 'thorough': 6000})]
+GRID_OPTS = [{}, {'reindent': True}, {'reindent_aligned': True}, {'strip_comments': True, 'strip_whitespace': True}, {'use_space_around_operators': True},
+             {'reindent': True, 'comma_first': True, 'indent_columns': True, 'wrap_after': 20}, {'reindent': True, 'indent_tabs': True, 'compact': True, 'indent_after_first': True},
+             {'keyword_case': 'upper', 'identifier_case': 'lower', 'output_format': 'python'}, {'truncate_strings': 3}]
+GRID_DEPTHS = {'quick': [25, 51, 60, 120, 200], 'thorough': [10, 25, 40, 51, 60, 80, 120, 160, 200, 250]}
+
+
+def _grid(tier):
+    """moderate depths at the interpreter's default recursion limit: the zone in which calls are expected to succeed
+    (every shape x depth x entry point x fixed option sets, enumerated completely)"""
+    for shape in sorted(c15_child.SHAPES):
+        for depth in GRID_DEPTHS[tier]:
+            for entry in ('parse', 'parsestream', 'split'):
+                yield {'shape': shape, 'depth': depth, 'limit': 1000, 'entry': entry, 'opts': {}}
+            for opts in GRID_OPTS:
+                yield {'shape': shape, 'depth': depth, 'limit': 1000, 'entry': 'format', 'opts': opts}
+
+
+LEGS = [Leg('moderate', check=check, enumerate=_grid, exhaustive=True),
+        Leg('nesting', check=check, run=run, kind='custom', examples={'quick': 600, 'thorough': 6000})]
